@@ -54,7 +54,8 @@ RULE = ("one op = one macro invocation in a fresh fixture; integer operands from
         "the normal and the crash-on-fail terminators (seq / seqc: failures, checks, statements started, failed flag, crash calls); "
         "operands with side effects for 25 macros (evals: pure, changing expected, changing actual, both); every macro also in its _TEXT form; a deterministic sweep in every run: every macro, plain and _TEXT, at every "
         "operand type over pairs differing in exactly one bit (0, 7, 8, 15, 16, 31, 32, 47, 63), the distinguishing string / block / double "
-        "pairs, every seq step alone / after a passing prefix in both terminator modes, every evals macro on 8 operand streams; thorough: the lattices exhaustively (plain and _TEXT forms alike). "
+        "pairs, the eight boolean macros on COMPOUND conditions (a || b, a && b, a == b, a != b, a < b, a ? b : 0 over int pairs of every truth "
+        "combination - the macro's ! / (bool) must apply to the whole argument), every seq step alone / after a passing prefix in both terminator modes, every evals macro on 8 operand streams; thorough: the lattices exhaustively (plain and _TEXT forms alike). "
         "non-trivial = a case with at least one failing and one passing check; distinct = distinct op sequences")
 
 TYPES = ["i8", "u8", "i16", "u16", "i32", "u32", "i64", "u64"]
@@ -321,6 +322,22 @@ def op_bool(rng):
     return "bool %s %s %d" % (rng.choice(BOOL_MACROS), t, v)
 
 
+COND_OPS = ["or", "and", "eq", "ne", "lt", "cond"]
+# operand pairs of a compound condition: every truth combination, equal / ordered both ways, negative, and values on which
+# `!a OP b` differs from `!(a OP b)` for each operator (0||1, 1&&0, 1==2, 0!=0 vs 0!=1, 3<5, 0?x:0)
+COND_PAIRS = [(0, 0), (0, 1), (1, 0), (1, 1), (1, 2), (2, 1), (2, 2), (3, 5), (5, 3), (-1, 0), (0, -1), (0, 7), (-2147483648, 2147483647)]
+
+
+def op_boolx(rng):
+    """a boolean check macro on a compound condition over two ints (top-level operator binds weaker than unary !)"""
+    if rng.random() < 0.7:
+        a, b = rng.choice(COND_PAIRS)
+    else:
+        a = rng.choice([0, 0, 1, pick_int(rng, "i32")])
+        b = rng.choice([0, 1, a, pick_int(rng, "i32")])
+    return "boolx %s %s %d %d" % (rng.choice(BOOL_MACROS), rng.choice(COND_OPS), a, b)
+
+
 def op_dbl(rng):
     e = pick_dbl(rng)
     a = related_dbl(rng, e)
@@ -406,7 +423,7 @@ def op_fail(rng):
 
 
 KINDS = [(op_int, 24), (op_dbl, 16), (op_str, 16), (op_mem, 8), (op_bits, 8), (op_cmp, 8), (op_dcmp, 4), (op_enum, 5),
-         (op_bool, 5), (op_ptr, 4), (op_fail, 2), (op_zero, 2), (op_throws, 2), (op_seq, 6), (op_evals, 4)]
+         (op_bool, 5), (op_boolx, 6), (op_ptr, 4), (op_fail, 2), (op_zero, 2), (op_throws, 2), (op_seq, 6), (op_evals, 4)]
 
 
 def gen_case(rng, n):
@@ -430,8 +447,10 @@ def malformed_op(rng):
         return "mem MEMCMP_EQUAL 6162 616263 %d" % rng.choice([3, 4, 100])    # longer than a block: outside the contract, skipped
     if x < 0.8:
         return "dbl DOUBLES_EQUAL 7ff 0 0"
-    if x < 0.9:
+    if x < 0.85:
         return "str STRCMP_EQUAL 6g 61 0"
+    if x < 0.9:
+        return rng.choice(["boolx CHECK_FALSE xor 1 2", "boolx CHECK or 99999999999 1", "boolx CHECK_EQUAL or 1 1", "boolx CHECK_C cond 1"])
     return rng.choice(["bogus", "int", "bits BITS_EQUAL i8 1 i8 1 i16 1", "cmp xx i32 1 i32 1", "enum i32 i8 1 i16 1"])
 
 
@@ -491,6 +510,11 @@ def exhaustive(rng):
             for m in BOOL_MACROS:
                 ops.append("bool %s %s %d" % (m, t, v))
             ops.append("zero CHECK_EQUAL_ZERO %s %d" % (t, v))
+    for m in BOOL_MACROS:
+        for o in COND_OPS:
+            for a in small_lattice("i32") + [2, 5]:
+                for b in small_lattice("i32") + [2, 5]:
+                    ops.append("boolx %s %s %d %d" % (m, o, a, b))
     # every statement kind followed by every statement kind, after a passing prefix of each style
     for x in SEQ_STEPS:
         for y in SEQ_STEPS:
@@ -557,6 +581,11 @@ def sweep():
                             ops.append("bits %s %s %d %s %d i32 %d" % (m, t, v, t, va, 1 << b))
                         if b < 8:
                             ops.append("bits %s %s %d %s %d u8 %d" % (m, t, v, t, va, 1 << b))
+    # the boolean macros on compound conditions: every macro (plain and _TEXT) x every operator x every operand pair
+    for m in BOOL_MACROS:
+        for o in COND_OPS:
+            for a, b in COND_PAIRS:
+                ops.append("boolx %s %s %d %d" % (m, o, a, b))
     for m in PTR_MACROS:
         for v in (0, 4096, (1 << 64) - 1):
             ops.append("ptr %s %d %d" % (m, v, v))
@@ -714,6 +743,13 @@ def observe(r, rep):
                             rep.count("branch.dbl.difference_equals_tolerance")
             if int(op[4], 16) >> 63 and ct not in ("nan",):
                 rep.count("branch.dbl.negative_tolerance")
+        if kind == "boolx" and len(op) == 5:
+            a, b = int(op[3]), int(op[4])
+            na = 0 if a else 1
+            whole = {"or": a or b, "and": a and b, "eq": a == b, "ne": a != b, "lt": a < b, "cond": (b if a else 0)}[op[2]]
+            first = {"or": na or b, "and": na and b, "eq": na == b, "ne": na != b, "lt": na < b, "cond": (b if na else 0)}[op[2]]
+            if bool(first) == bool(whole):          # `!a OP b` and `!(a OP b)` differ: only the parenthesised expansion is right
+                rep.count("branch.boolx.negating_first_operand_only_would_differ")
         if kind in ("str", "mem"):
             nulls = (op[2] == "null") + (op[3] == "null")
             rep.count("branch.%s.null_operands_%d" % (kind, nulls))
